@@ -24,7 +24,10 @@ type FS struct {
 	// (the next mutating call panics with Crash{}); -1 = never.
 	CrashAfter int
 	Mutations  int
-	Prefix     string // chroot prefix
+	// Torn > 0: when the crash point falls on a file write of more than Torn bytes, the
+	// first Torn bytes of it reach the file before the process dies (a torn write).
+	Torn   int
+	Prefix string // chroot prefix
 	parent     *FS
 }
 
@@ -244,6 +247,17 @@ func (f *file) Write(p []byte) (int, error) {
 		return 0, os.ErrClosed
 	}
 	r := f.fs.root()
+	if r.CrashAfter >= 0 && r.Mutations >= r.CrashAfter && r.Torn > 0 && r.Torn < len(p) {
+		// torn write: a prefix reaches the file, then the process dies
+		c := r.Files[f.name]
+		if f.off > len(c) {
+			f.off = len(c)
+		}
+		nc := append(append([]byte{}, c[:f.off]...), p[:r.Torn]...)
+		r.Files[f.name] = nc
+		r.Log = append(r.Log, "torn write "+f.name)
+		panic(Crash{})
+	}
 	f.fs.mutate("write " + f.name)
 	c := r.Files[f.name]
 	if f.off > len(c) {
